@@ -123,9 +123,23 @@ pub enum Via {
 
 /// the buffer `messages::parse` will see for a message transmitted as armored characters
 pub fn armored_view(bits: &Bits) -> (Vec<u8>, u8, Bits) {
-    let (chars, fill) = bits.to_armor();
+    // the sender's padding bits are ones in half of the cases (chosen by a content bit):
+    // the fill count says they are not payload, so nothing of them may reach the message
+    let (chars, fill) = bits.to_armor_pad(bits.get(10));
     let view = crate::armor::unarmored_bits(&chars, fill as usize).unwrap();
     (chars, fill, view)
+}
+
+/// lines that must leave no trace in a parser (C17), used to dirty it before a decode
+pub fn dirty_lines() -> Vec<(Vec<u8>, bool)> {
+    vec![
+        (crate::nmea_ref::mk(1, 1, None, b"wwwwwwwwwwwwwwwwwwwwwwwwwwwwwwwwwwwwwwwwwwwwwwwwwwwwwwww~", 0), true),
+        (crate::nmea_ref::mk(1, 1, None, b"Fwwwwwwwwwwwwwwwwwwwwwwwwwww", 0), true),
+        (crate::nmea_ref::mk(1, 1, None, b"1www", 0), true),
+        (b"!AIVDM,1,1,,A,15RTgt0PAso;90TKcjM8h6g208CQ,0*00".to_vec(), true),
+        (crate::nmea_ref::mk(2, 1, Some(9), b"wwwwwwwwwwwwwwwwwwwwwwwwwwwwwwwwwwwwwwwwwwwwwwwwwwwwwwwwwwwwwwwwwwwwww", 0), true),
+        (crate::nmea_ref::mk(2, 2, Some(8), b"wwww", 0), true),
+    ]
 }
 
 pub struct Verdict {
@@ -170,9 +184,11 @@ pub fn judge(view: &Bits, call: &MsgCall) -> Verdict {
         (RefOut::Msg(r), MsgCall::Err) => {
             let cap_exempt = mon::is_noalloc() && r.caps.over();
             if r.must_ok && !cap_exempt {
+                // a message of a specification-legal length that is not decoded at all fails
+                // every property about decoded content: owned by whichever check sees it (0)
                 mm.push(Mismatch {
-                    key: "length".into(),
-                    prop: 14,
+                    key: "rejected".into(),
+                    prop: 0,
                     expected: format!("Ok({}) at a specification-legal length of {} bits", r.variant, view.len()),
                     observed: "error".into(),
                 });
@@ -230,6 +246,23 @@ pub fn run_message_mask(
             let (chars, fill, view) = armored_view(bits);
             let line = crate::nmea_ref::mk(1, 1, None, &chars, fill);
             let mut p = mon::Parser::new();
+            let mut hist: Vec<(Vec<u8>, bool)> = Vec::new();
+            // half of the cases (chosen by a content bit) run on a parser that has just seen
+            // lines which must leave no trace: a payload that fails half-way through
+            // unarmoring, an undecodable type, a short message, a bad checksum, and an
+            // abandoned fragment - all with decoding requested
+            if bits.get(9) == 1 {
+                // every kind of inert line is the last one before the judged line in some
+                // cases (rotation chosen by further content bits)
+                let mut dl = dirty_lines();
+                let rot = (bits.uint(11, 3) as usize) % dl.len();
+                dl.rotate_left(rot);
+                for (l, d) in dl {
+                    let _ = p.parse(&l, d);
+                    hist.push((l, d));
+                }
+            }
+            hist.push((line.clone(), true));
             let call = match p.parse(&line, true) {
                 mon::Call::Done(crate::observe::Outcome::Complete(s)) => match (s.message, s.message_debug) {
                     (Some(m), Some(d)) => MsgCall::Ok(m, d),
@@ -238,17 +271,19 @@ pub fn run_message_mask(
                 mon::Call::Done(_) => MsgCall::Err,
                 mon::Call::Panic(pi) => MsgCall::Panic(pi),
             };
-            (view, call, mon::replay_history(&[(line, true)], ctxname))
+            (view, call, mon::replay_history(&hist, ctxname))
         }
     };
     let v = judge(&view, &call);
     let mut reported = false;
     for m in &v.mismatches {
-        let owned = m.prop == 1 || (mask >> m.prop) & 1 == 1;
+        let owned = m.prop <= 1 || (mask >> m.prop) & 1 == 1;
         if owned {
             if !reported {
                 let t = view.uint(0, 6);
-                let sig = if m.prop == 1 {
+                let sig = if m.prop == 0 {
+                    format!("t{}:legal-length-rejected", t)
+                } else if m.prop == 1 {
                     format!("panic@{}", v.panic.as_ref().map(|p| p.loc.clone()).unwrap_or_default())
                 } else {
                     format!("t{}:{}", t, m.key)
